@@ -9,6 +9,8 @@
                                            -> same
      savedir <quote 0|1> <all 0|1> <n> (<relpath> <data>)*
                                            -> <hex of the bytes txtar-c prints>
+     entryname <dir argument> <relpath>    -> <hex: the archive name txtar-c gives the file>
+     mode <umask decimal> D|F              -> <decimal permission bits of a created object>
      restore <archive bytes> <name> <stored>
                                            -> ok <hex> | err
    <res> = ok | outside | mkdir:<errno> | open:<errno> | fuel *)
@@ -70,6 +72,9 @@ let () = serve (function
       let (files, _) = take_files (int_of_string n) r [] in
       let t = List.map (fun (p, d) -> (split_sep p, d)) files in
       hex_of_bytes (txtar_c { f_quote = bool01 q; f_all = bool01 a } t)
+  | ["entryname"; d; p] -> hex_of_bytes (entry_name (clean (bytes_of_hex d)) (split_sep (bytes_of_hex p)))
+  | ["mode"; u; k] ->
+      string_of_int (int_of_n (created_mode (n_of_int (int_of_string u)) (if k = "D" then Dir else File [])))
   | ["restore"; arch; name; stored] ->
       (match restored (parse (bytes_of_hex arch)).comment (bytes_of_hex name) (bytes_of_hex stored) with
        | Some b -> "ok " ^ hex_of_bytes b | None -> "err")
